@@ -331,7 +331,8 @@ def lincomb(F, R, I_, cfg):
             R.viol("C04.lincomb", I_("basepoint_table:" + name), "analysis of create() failed: %r" % (e,), F.loc(f))
             continue
         check("basepoint_table:" + name, mb[0], [tab, ("scal", "s")], [("B", "s")])
-    R.floor("C04.lincomb", I_("routines decided in the linear-combination domain"), n, 13 if cfg in ("simd", "notables", "ifma") else 9)
+    tables = F.has_cfg("feature=precomputed-tables")
+    R.floor("C04.lincomb", I_("routines decided in the linear-combination domain"), n, (13 if tables else 10) if cfg in ("simd", "notables", "ifma") else (9 if tables else 4))
 
 
 def tag(f):
